@@ -91,7 +91,10 @@ pub fn check_program(boot: &Xstate, prog: &[Node], rendered: &Rendered, obs: Opt
     let limit = (64 * reference.steps + 1000) as usize;
     let _ = xs.set_insn_limit(Some(limit));
     let _ = xs.set_stack_limit(Some(200_000));
-    let real = run_real(&mut xs, &rendered.src);
+    // records of loops that an earlier, failed program left behind are not this program's
+    let loops0 = xs.verif_dump().loops.len();
+    let mut real = run_real(&mut xs, &rendered.src);
+    real.loops_left = real.loops_left.saturating_sub(loops0);
     if let Some(o) = obs {
         code_stats(&xs, o);
     }
@@ -103,7 +106,33 @@ impl C01 {
     fn one(&mut self, idx: u64, obs: &mut Obs) {
         let case = gen_case("C01", self.seed, idx);
         obs.count(&format!("profile:{}", case.profile));
-        let (m, reference, note) = check_program(&self.boot, &case.prog, &case.rendered, Some(obs));
+        // one program in four runs on an interpreter whose previous program was aborted by a run-time error inside
+        // loops / a called word: nothing of that (loop records, frames) may be visible to this program
+        let history: Option<&str> = match idx % 12 {
+            3 => Some("3 0 do 1 0 / loop"),
+            7 => Some(": prelude-word 4 1 do 2 0 do nil 1 + loop loop ; prelude-word"),
+            11 => Some("[ 7 8 ] foreach 5 1 do nil 1 + loop loop"),
+            _ => None,
+        };
+        let boot_h = {
+            let mut b = self.boot.clone();
+            if let Some(h) = history {
+                let _ = b.set_insn_limit(Some(10_000));
+                let r = catch(|| b.eval(h));
+                if !matches!(r, Ok(Err(_))) {
+                    obs.count("history:setup_failed");
+                }
+                while b.data_depth() > 0 {
+                    if b.pop_data().is_err() {
+                        break;
+                    }
+                }
+                let _ = b.read_stdout();
+                obs.count("programs_after_an_aborted_program");
+            }
+            b
+        };
+        let (m, reference, note) = check_program(&boot_h, &case.prog, &case.rendered, Some(obs));
         // structure statistics
         let mut sk = String::new();
         let mut pairs = Vec::new();
@@ -151,7 +180,7 @@ impl C01 {
         }
         if let Some(m) = m {
             // minimise while the same mismatch class persists
-            let boot = self.boot.clone();
+            let boot = boot_h.clone();
             let class = m.class.clone();
             let small = shrink(&case.prog, |cand| {
                 let mut r2 = Rng::new(1);
@@ -163,7 +192,7 @@ impl C01 {
             });
             let mut r2 = Rng::new(1);
             let rd = render(&small, &mut r2, false);
-            let (m2, ref2, _) = check_program(&self.boot, &small, &rd, None);
+            let (m2, ref2, _) = check_program(&boot_h, &small, &rd, None);
             let detail = m2.map(|x| x.detail).unwrap_or(m.detail.clone());
             let mut sk2 = String::new();
             let mut p2 = Vec::new();
@@ -173,7 +202,7 @@ impl C01 {
                 class: m.class.clone(),
                 sig: format!("C01:{}:{}", m.class, sk2),
                 index: idx,
-                case: format!("minimised: {}\nreference: fail={:?} stack=[{}] out={:?}\noriginal source: {}", rd.src, ref2.fail, show_vals(&ref2.stack), ref2.out, case.rendered.src),
+                case: format!("{}minimised: {}\nreference: fail={:?} stack=[{}] out={:?}\noriginal source: {}", history.map(|h| format!("(after the aborted program `{}`) ", h)).unwrap_or_default(), rd.src, ref2.fail, show_vals(&ref2.stack), ref2.out, case.rendered.src),
                 detail,
             });
         }
